@@ -40,7 +40,7 @@ pub fn quant_twin(case: &QuantCase, st: &mut Stats) -> Result<bool, Failure> {
                     inputs.push(start + step * i as f32)
                 }
             }
-            QuantOp::Noise { .. } => {}
+            QuantOp::Noise { .. } | QuantOp::EditBurst { .. } => {}
         }
         for n in 0..=255u8 {
             let x = a.is_allowed(Note::from(n));
